@@ -100,7 +100,7 @@ class Run:
         cov.update(self.counters); cov.update(self.extra)
         ev = {"property_id": self.pid, "tier": self.tier, "seed": self.seed, "level": self.level, "coverage": cov,
               "assumptions": self.assumptions, "wall_s": time.time() - self.t0, "violations": len(unknown), "machinery_errors": self.machinery}
-        if merge_from is not None:
+        if merge_from is not None and not os.environ.get("VERIF_NO_MERGE"):
             # merge with the evidence written by the in-process engine for the same property
             try:
                 old = json.load(open(f"{OUT_ROOT}/evidence/{self.pid}.json"))
